@@ -176,7 +176,7 @@ impl Object for Function {
                     ref p => bail!("found a function stream with type {:?}", p)
                 }
             },
-            Primitive::Reference(r) => Self::from_primitive(resolve.resolve(r)?, resolve),
+            Primitive::Reference(r) => Self::from_primitive(resolve.resolve_value(r)?, resolve),
             _ => bail!("double indirection")
         }
     }
